@@ -143,6 +143,9 @@ def _mol2_text(V):
     m = text_molecule(V)
     # the atoms' back-references: to this molecule, or (history: two of the atoms were also handed to another non-copying container,
     # e.g. Promolecule(mol.atoms[1:3])) to an object in which they sit at other positions -- they are still atoms 1 and 2 of THIS molecule
+    # the name is a whole line of the file: it may contain blanks (the symbolic name stands for any blank-free token)
+    if V.choose([False, True], "name-contains-a-blank"):
+        m.fields["_name"] = "ligand 7"
     shared = V.choose([False, True], "atoms-shared-with-another-container")
     if shared:
         other = M.mk_mol(V, "Molecule", 0, (), name="other")
